@@ -10,7 +10,7 @@ from fggs.indices import PatternedTensor
 from fggs.multi import MultiTensor
 from . import ptgen
 from .ptgen import random_type, random_pt, ty_numel
-from .common import Toks, enc_ext
+from .common import Toks, enc_ext, enc_list
 
 RULE = ('ordered pairs of typed patterns over a common type list (0..3 dims, depth <= 2), physical values in {0,1,2} and defaults in {0,1,2} so '
         'that equal and unequal pairs are both frequent, plus pairs derived from one tensor (clone, densification, re-patterning, one changed '
@@ -115,6 +115,21 @@ def run(ctx):
             ctx.disagree('PT.equalModel vs PatternedTensor.equal', case, impl_eq, me)
         if impl_ac is not None and impl_ac != ma:
             ctx.disagree('PT.allcloseModel vs PatternedTensor.allclose', case, impl_ac, ma)
+    ireqs, imeta = ctx.extra.pop('_impl_reqs', []), ctx.extra.pop('_impl_meta', [])
+    for (case, impl_eq, impl_ac), rep in zip(imeta, ctx.driver.ask_many(ireqs)):
+        if isinstance(rep, Exception): raise rep
+        ie, ia, faithful, me, ma = rep.split()
+        ctx.evaluations += 1
+        ctx.count('impl-model.' + ('theorem-applies' if faithful == 'T' else 'outside-hypothesis'))
+        if faithful != 'T':
+            ctx.disagree('Eq.faithful: the pair is outside the hypothesis of C13b.compareImpl_eq_compareModel (a unification failed on '
+                         'intersecting patterns, or the model ran out of fuel)', case, 'T', faithful)
+        if impl_eq is not None and ie != ('T' if impl_eq else 'F'):
+            ctx.disagree('Eq.compareImpl (equal with unify/project in place) vs PatternedTensor.equal', case, impl_eq, ie)
+        if impl_ac is not None and ia != ('T' if impl_ac else 'F'):
+            ctx.disagree('Eq.compareImpl (allclose) vs PatternedTensor.allclose', case, impl_ac, ia)
+        if faithful == 'T' and (ie != me or ia != ma):
+            ctx.disagree('Eq.compareImpl differs from PT.compareModel on a faithful pair (the C13b theorem would be false)', case, (ie, ia), (me, ma))
     run_multi(ctx)
 
 
@@ -145,6 +160,22 @@ def one_pair(ctx, kind, t, u, rtol, atol, reqs, meta):
         reqs.append(f'C13.compare {ptgen.enc_pt(t)} {ptgen.enc_pt(u)} {enc_ext(rtol)} {enc_ext(atol)} F')
         meta.append((case, res['equal'] if not isinstance(res.get('equal'), Exception) else None,
                      res['allclose'] if not isinstance(res.get('allclose'), Exception) else None))
+        # the transcription of equal/allclose with unify and project in their place (Eq.compareImpl); u's physical axes get identities
+        # disjoint from t's, which is what `other.freshen()` establishes
+        if not any(k_._numel == 0 for k_ in tuple(t.paxes) + tuple(u.paxes)):
+            ids = {}
+            def enc(p_, tag):
+                pa = enc_list(p_.paxes, lambda k_: f'{ids.setdefault((tag, id(k_)), len(ids))} {k_._numel}')
+                def ea(e):
+                    from fggs.indices import PhysicalAxis as _P, ProductAxis as _X
+                    if isinstance(e, _P): return f'P {ids.setdefault((tag, id(e)), len(ids))} {e._numel}'
+                    if isinstance(e, _X): return 'X ' + enc_list(e.factors, ea)
+                    return f'S {e.before} {ea(e.term)} {e.after}'
+                va = enc_list(p_.vaxes, ea)
+                return f'{enc_list(p_.physical.contiguous().reshape(-1).tolist() if p_.physical.numel() else [], enc_ext)} {pa} {va} {enc_ext(float(p_.default))}'
+            et, eu = enc(t, 't'), enc(u, 'u')
+            ctx.extra.setdefault('_impl_reqs', []).append(f'C13.impl {et} {eu} {enc_ext(rtol)} {enc_ext(atol)} F {len(ids) + 3}')
+            ctx.extra.setdefault('_impl_meta', []).append((case, meta[-1][1], meta[-1][2]))
 
 
 def run_multi(ctx):
